@@ -145,6 +145,18 @@ func verifC31Fields(t time.Time) string {
 		t.Nanosecond()/1000, off, t.Unix())
 }
 
+// the local wall clock reading of t occurs twice (end of DST): a name without zone cannot identify t
+func verifC31Ambiguous(t time.Time) bool {
+	l := t.In(time.Local)
+	for _, d := range []time.Duration{-time.Hour, time.Hour, -30 * time.Minute, 30 * time.Minute, -2 * time.Hour, 2 * time.Hour} {
+		o := l.Add(d)
+		if o.Year() == l.Year() && o.YearDay() == l.YearDay() && o.Hour() == l.Hour() && o.Minute() == l.Minute() && o.Second() == l.Second() {
+			return true
+		}
+	}
+	return false
+}
+
 func verifC31Gen(r *verifutil.Rand, i int, thorough bool) []string {
 	zone := verifC31Zones[r.Intn(len(verifC31Zones))]
 	verifC31SetLocal(zone)
@@ -201,7 +213,7 @@ func verifC31Gen(r *verifutil.Rand, i int, thorough bool) []string {
 	for _, s := range starts {
 		t := time.UnixMicro(s).In(time.Local)
 		// skip instants whose local wall clock is ambiguous (end of DST): the file name cannot identify them
-		if !time.Date(t.Year(), t.Month(), t.Day(), t.Hour(), t.Minute(), t.Second(), t.Nanosecond(), time.Local).Equal(t) {
+		if verifC31Ambiguous(t) || !time.Date(t.Year(), t.Month(), t.Day(), t.Hour(), t.Minute(), t.Second(), t.Nanosecond(), time.Local).Equal(t) {
 			continue
 		}
 		p := recordstore.Path{Start: t}.Encode(strings.ReplaceAll(format, "%path", name)) + ".mp4"
@@ -259,6 +271,9 @@ func verifC31Gen(r *verifutil.Rand, i int, thorough bool) []string {
 		targets = append(targets, starts[1])
 	}
 	for _, tg := range targets {
+		if verifC31Ambiguous(time.UnixMicro(tg)) {
+			continue
+		}
 		tw := time.UnixMicro(tg).In(time.FixedZone("w", wOff))
 		str := tw.Format(time.RFC3339Nano)
 		parsed, err := time.Parse(time.RFC3339, str) // what the handler will see (time.Local is the case's zone)
